@@ -314,6 +314,14 @@ def _boolean_search(repo, name, both_directions):
         elif direction == "predecessor":
             bwd.append(site)
         else:
+            it = binder.iter if not isinstance(binder, tuple) else binder[0].iter
+            base = it
+            while isinstance(base, ast.Subscript):
+                base = base.value
+            if not (_is_name(base, graph) or _method_call(base, graph, ("get", "items", "keys", "values"))):
+                # the vertices come from something that is not an expression over the graph parameter (a helper, a
+                # generator, a callable): nothing can be said about it here
+                _unknown(R, fi, "vertices pushed by `%s` come from `%s`" % (src(n), src(it)))
             obs.append(Ob(R, k + "push:%s:takes-the-adjacency-of-the-popped-vertex" % u, _where(fi, n), False,
                           "`%s` pushes `%s` bound by `for %s in %s`, which is not the whole adjacency of the popped "
                           "vertex `%s` (graph[%s], unsliced)%s" % (
@@ -472,6 +480,12 @@ def r2_compositions(repo):
         ups = [n for n in ast.walk(loop) if isinstance(n, ast.Call) and isinstance(n.func, ast.Attribute) and
                n.func.attr in ("update", "extend") and len(n.args) == 1 and _is_name(n.args[0], p)]
         rets = [r for r in _own(fi.node) if isinstance(r, ast.Return)]
+        if not ups:
+            # element by element: for node in path: res.add(node)
+            for inner in [x for x in loop.body if isinstance(x, ast.For)]:
+                if _is_name(inner.iter, p) and isinstance(inner.target, ast.Name) and not _breaks_of(inner):
+                    ups += [n for n in ast.walk(inner) if isinstance(n, ast.Call) and isinstance(n.func, ast.Attribute) and
+                            n.func.attr in ("add", "append") and [src(a) for a in n.args] == [inner.target.id]]
         ok = len(ups) == 1 and not _leaves(ups[0]) and len(rets) == 1 and not _breaks_of(loop) and \
             src(rets[0].value) in (src(ups[0].func.value), "set(%s)" % src(ups[0].func.value))
     elif isinstance(loop, ast.comprehension):
@@ -627,6 +641,8 @@ def r4_all_paths(repo):
         _unknown(R, fi, "expected (graph, start, path=None)")
     graph, start, acc = fi.params[:3]
     obs = []
+    if not [c for c in ast.walk(fi.node) if _call_of(c, "find_all_paths") and isinstance(c.func, ast.Name)]:
+        _unknown(R, fi, "the function does not recurse (the enumeration is delegated)")
     dfl = fi.node.args.defaults
     obs.append(Ob(R, "find_all_paths:accumulator-default-is-immutable", _where(fi),
                   bool(dfl) and isinstance(dfl[-1], (ast.Constant, ast.Tuple)),
